@@ -54,6 +54,13 @@ CLAIMED = {
          "queue order is the re-translated operator<. Model, checked flood and an independent heap-based evaluation of the "
          "definition are compared with the fresh build (incl. dirty-heap worker processes) on generated and exhaustive inputs",
          "Rocq proof (simulation + invariants) + translator + differential correspondence"),
+ "C05": ("proof", "Coq theorems (any dimension and shape): one min-plus pass per axis yields at every pixel the minimum over the whole "
+         "grid of squared Euclidean distance + initial value (induction over the axes; the 1-D pass is a parameter with its "
+         "specification); with distance.py's initial values that is 0 on the background, exactly the least squared distance to the "
+         "background when there is one, and larger than every attainable distance when there is none. The lower-envelope pass of "
+         "_distance.cpp is an executable model (exact rational comparisons) proved equal to the min-plus specification on a finite "
+         "sweep and compared with it on every generated line; results are compared exactly with brute force and with the model",
+         "Rocq proof + finite sweep + differential correspondence (exact integers)"),
 }
 NOT_YET = "check not built yet in this round (see DESIGN.md section 8 for the plan)"
 ALL = ["C%02d" % i for i in range(1, 21)]
